@@ -16,6 +16,7 @@ import Iso8583.Drivers.Spec
 import Iso8583.Drivers.Layout
 import Iso8583.Drivers.Track
 import Iso8583.Drivers.TrackMsg
+import Iso8583.Drivers.JsonText
 
 namespace Iso8583.Driver
 
@@ -31,7 +32,8 @@ def handlers : List (List String → Option String) :=
     Iso8583.Drivers.Spec.handle,
     Iso8583.Drivers.Layout.handle,
     Iso8583.Drivers.TrackDrv.handle,
-    Iso8583.Drivers.TrackMsg.handle ]
+    Iso8583.Drivers.TrackMsg.handle,
+    Iso8583.Drivers.JsonText.handle ]
 
 def runLine (line : String) : String :=
   let toks := line.splitOn " "
